@@ -11,9 +11,9 @@ from harness import chelper, cnode
 from finam.interfaces import ComponentStatus as CS
 
 
-def judge(specs, links, order, link_order, cache=True):
+def judge(specs, links, order, link_order, cache=True, variant=None):
     F, stuck = cnode.fixpoint(specs, links)
-    out, comps = cnode.run_connect(specs, links, order, link_order, cache)
+    out, comps = cnode.run_connect(specs, links, order, link_order, cache, variant)
     bad = []
     sp = {s[0]: s for s in specs}
     t_start = min(s[3] for s in specs)
@@ -81,7 +81,10 @@ def run_helper(case):
     if case.get("path") is not None:
         vs = chelper.run_path(cfg, case["path"])
         return dict(n=1, violations=[viol(fp, what, dict(kind="helper", cfg=cfg, path=p)) for _c, fp, what, p in vs])
-    r = chelper.explore(cfg)
+    try:
+        r = chelper.explore(cfg)
+    except Exception as e:  # noqa - the harness itself only makes legal calls: an exception escaping here comes from the library (e.g. while initializing)
+        return dict(n=1, violations=[viol(dict(kind="helper", clause="exception_outside_connect", error=type(e).__name__), f"helper layer {cfg}: {type(e).__name__}: {str(e)[:150]}", dict(kind="helper", cfg=cfg))])
     res = dict(n=1, states=r["states"], transitions=r["transitions"], traces=r["quiescent"], nontrivial=1, counters={"helper_connect_calls": r["calls"], "helper_quiescent_states": r["quiescent"]}, violations=[])
     if r.get("capped"):
         res["capped"] = dict(cfg=cfg)
@@ -172,7 +175,21 @@ def run_masked_start(case):
     return res
 
 
+PRELUDE = ([("S", [], [("o", "decl", "const")], 0), ("P", [("i", "decl")], [("o", "from_in:i", "pull:i")], 0), ("T", [("i", "decl")], [], 0)], [(("S", "o"), ("P", "i")), (("P", "o"), ("T", "i"))], ["S", "P", "T"], [0, 1])
+
+
 def run_case(case):
+    try:
+        return _run_case(case)
+    except Exception as e:  # noqa - the harness only makes legal calls: an exception that escapes a work item comes from the library (e.g. while a component is initialized)
+        import traceback
+
+        where = traceback.extract_tb(e.__traceback__)[-1]
+        short = {k: v for k, v in case.items() if k != "shapes"}
+        return dict(n=1, violations=[viol(dict(kind="connect", clause="exception_outside_connect", error=type(e).__name__), f"work item {short}: {type(e).__name__}: {str(e)[:150]} (raised in {where.filename.split('/')[-1]}:{where.name})", case)])
+
+
+def _run_case(case):
     if case.get("kind") == "helper":
         return run_helper(case)
     if case.get("kind") == "masked_start":
@@ -192,7 +209,15 @@ def run_case(case):
             lorders = list(itertools.permutations(range(len(links))))
         for order in orders:
             for lo in lorders:
-                bad, out, stuck, ncalls = judge(specs, links, list(order), list(lo), case.get("cache", True))
+                r0 = cnode.World.refusals
+                if case.get("variant") == "late_rules":
+                    # process-wide state must not leak between compositions: every composition of this family runs after a fixed first composition
+                    # (a relay whose transfer rules were added late) in the same process; the replay of a finding repeats exactly this history
+                    cnode.run_connect(*PRELUDE, True, "late_rules")
+                bad, out, stuck, ncalls = judge(specs, links, list(order), list(lo), case.get("cache", True), case.get("variant"))
+                if case.get("variant"):
+                    cnt["variant_" + case["variant"]] = cnt.get("variant_" + case["variant"], 0) + 1
+                    cnt["refused_initial_publications"] = cnt.get("refused_initial_publications", 0) + cnode.World.refusals - r0
                 res["n"] += 1
                 res["traces"] += 1
                 res["transitions"] += ncalls
@@ -202,7 +227,7 @@ def run_case(case):
                     cnt["expected_stuck"] = cnt.get("expected_stuck", 0) + 1
                 res["nontrivial"] += 1 if ncalls > 2 * len(specs) else 0
                 for clause, detail in bad:
-                    res["violations"].append(viol(dict(kind="connect", clause=clause.split(":")[0], error=clause.split(":")[1] if ":" in clause else None), f"specs={specs} links={links} order={order} link_order={lo}: {clause}: {detail}", dict(shapes=[[specs, links]], order=list(order), link_order=list(lo), cache=case.get("cache", True))))
+                    res["violations"].append(viol(dict(kind="connect", clause=clause.split(":")[0], error=clause.split(":")[1] if ":" in clause else None), f"specs={specs} links={links} order={order} link_order={lo}: {clause}: {detail}", dict(shapes=[[specs, links]], order=list(order), link_order=list(lo), cache=case.get("cache", True), variant=case.get("variant"))))
     res["sample"] = dict(specs=case["shapes"][0][0], links=case["shapes"][0][1])
     return res
 
@@ -378,6 +403,10 @@ def run(tier, seed, agg):
     # the same with ConnectHelper(cache=False): the harness components hand in everything they can on every call, so nothing may depend on the cache
     nocache = list(single_slot_shapes(2, lambda n: [(0, 0), (1, 0)])) + list(two_slot_shapes()) + list(stuck_plus_arg_shapes())
     cases += [dict(shapes=nocache[i : i + 40], lo_mode="two" if q else "all", cache=False) for i in range(0, len(nocache), 40)]
+    # transfer rules added after the connector was created; initial data refused once (wrong units) and handed in again
+    small = list(single_slot_shapes(2, lambda n: [(0, 0), (1, 0)])) + list(staged_shapes()) + list(trunk_shapes()) + ([] if q else list(two_slot_shapes()))
+    cases += [dict(shapes=small[i : i + 40], lo_mode="two" if q else "all", variant="fault") for i in range(0, len(small), 40)]
+    late = [dict(shapes=small[i : i + 40], lo_mode="two" if q else "all", variant="late_rules") for i in range(0, len(small), 40)]
     big = list(big_ring_shapes())
     for sh in big:
         n = len(sh[0])
@@ -400,12 +429,15 @@ def run(tier, seed, agg):
     k = seed % len(cases)
     for r in pmap(run_case, cases[k:] + cases[:k]):
         agg.add(r)
+    for r in pmap(run_case, late):  # in worker processes of its own (a fresh pool), see PRELUDE
+        agg.add(r)
     return dict(
         level="model_checking",
         rule="every dependency shape of metadata/initial-data exchange over <=3 single-slot components (info declared / given per call / from own output / from input / open-from-target; data constant / from pulled inputs; start offsets), "
         "all two-output x two-input shapes with every slot declaration order and feedback, and stuck cycles next to per-call info providers, each executed through the real Composition.connect under ALL listing orders x ALL link creation orders (quick: identity and reversed link order for 3 components); "
         "oracle: least fixpoint of derivable exchange items (success with complete infos, initial publications at composition start and own start, exact initial values; otherwise circular error listing exactly the stuck components), "
-        "per-call status rule on every connect call, call cap for termination. Helper layer: ONE component (0-2 inputs, 0-2 outputs, infos declared or handed in later) with scripted peers, breadth-first search over ALL sequences of "
+        "per-call status rule on every connect call, call cap for termination; the two- and three-component shapes again with transfer rules added after the connector was created (add_*_info_rule; each composition preceded, in the same process, by a first composition with such a relay) and with constant initial data "
+        "that is refused once (handed in in a unit the output rejects, the component handles the error and hands in the valid value in the same call). Helper layer: ONE component (0-2 inputs, 0-2 outputs, infos declared or handed in later) with scripted peers, breadth-first search over ALL sequences of "
         "connect calls (each handing in at most one new item), peer info/data publications and peer exchanges, until quiescence; per-call status rule, done items stay done, every possible exchange happens in the call that makes it possible, final state CONNECTED with the peers' values and exactly the required initial publications. states/transitions = component connect calls observed; non-trivial = executions needing more than two calls per component",
         bound=dict(components="<=3 (+4 in the stuck family)", slots="<=2 per side", offsets="{0,1,2}"),
         assumptions=["the reference fixpoint model in harness/cnode.py", "observable exchange items are read from the public connector properties"],
